@@ -598,27 +598,90 @@ Proof.
   rewrite (b32_decode_encode_eqs bs n Hbs). reflexivity.
 Qed.
 
-(* base64: "/" is a base64 symbol, and the tokenizer cuts a line at the first "//" even inside a word; the theorem
-   therefore needs the encoding to be a tokenizer word (non-empty, no "//": [word_ok], decidable by computation) *)
+(* base64: "/" is a base64 symbol.  Since the repair of the tokenizer (finding D30: "//" inside base64 data was taken
+   for a comment) the encoding needs no side condition about slashes: its characters are never a blank or a double
+   quote, which is all the tokenizer asks of base64 data. *)
+Definition data_char (c : ascii) : bool := negb (is_space c) && negb (Ascii.eqb c dq).
+Fixpoint all_data (s : string) : bool :=
+  match s with EmptyString => true | String c t => data_char c && all_data t end.
+
+Lemma all_data_elim : forall s, all_data s = true -> no_space s = true /\ no_dq s = true.
+Proof.
+  induction s as [|c t IH]; intros H; [split; reflexivity|].
+  cbn [all_data] in H. apply andb_true_iff in H. destruct H as [Hc Ht]. destruct (IH Ht) as [I1 I2].
+  unfold data_char in Hc. apply andb_true_iff in Hc. destruct Hc as [C1 C2].
+  cbn [no_space no_dq]. rewrite C1, C2, I1, I2. split; reflexivity.
+Qed.
+Lemma all_data_app : forall a b, all_data a = true -> all_data b = true -> all_data (a ++ b)%string = true.
+Proof.
+  induction a as [|c a IH]; intros b Ha Hb; [exact Hb|].
+  cbn [String.append all_data] in *. apply andb_true_iff in Ha. destruct Ha as [Hc Ha].
+  rewrite Hc, (IH b Ha Hb). reflexivity.
+Qed.
+Lemma all_data_eqs : forall n, all_data (eqs n) = true.
+Proof. induction n as [|n IH]; [reflexivity|]. cbn [eqs all_data]. rewrite IH. reflexivity. Qed.
+Lemma data_b64_sym : forall v, v < 64 -> data_char (sym b64_alphabet v) = true.
+Proof.
+  intros v Hv. apply (forall_below 64 (fun v => data_char (sym b64_alphabet v))); [vm_compute; reflexivity|exact Hv].
+Qed.
+Lemma all_data_b64_encode : forall bs, all_data (b64_encode_nopad bs) = true.
+Proof.
+  intros bs. unfold b64_encode_nopad, encode_nopad.
+  pose proof (chunks_length 6 (bits_of_bytes bs)) as Hall.
+  induction Hall as [|g gs Hg Hall IH]; [reflexivity|].
+  cbn [map string_of_list_ascii all_data]. rewrite IH, data_b64_sym; [reflexivity|].
+  pose proof (bits_val_bound g) as Hb. rewrite Hg in Hb. exact Hb.
+Qed.
+Lemma all_data_b64_payload : forall bs n, all_data (b64_encode_nopad bs ++ eqs n)%string = true.
+Proof. intros. apply all_data_app; [apply all_data_b64_encode|apply all_data_eqs]. Qed.
+
+(* EVERY byte string, with any number of "=": the only requirement is that there is a payload token at all
+   (the empty byte string without padding gives the line `byte base64`, a ParseError: see parse_base64_empty) *)
 Theorem parse_base64_literal : forall kw sp bs n, bytes1_kw kw -> sp = "base64"%string \/ sp = "b64"%string ->
-  is_bytes bs -> word_ok (b64_encode_nopad bs ++ eqs n)%string = true ->
+  is_bytes bs -> (b64_encode_nopad bs ++ eqs n)%string <> ""%string ->
   parse_line (kw ++ " " ++ sp ++ " " ++ b64_encode_nopad bs ++ eqs n)%string
   = Ok (Some (IOther (bytes_cls kw) [PStr ("0x" ++ hex_spec bs)%string])).
 Proof.
-  intros kw sp bs n Hkw Hsp Hbs Hw.
-  rewrite (parse_bytes_base64 kw Hkw sp _ Hsp Hw).
+  intros kw sp bs n Hkw Hsp Hbs Hne.
+  destruct (all_data_elim _ (all_data_b64_payload bs n)) as [Hs Hq].
+  assert (Hd : data_ok (b64_encode_nopad bs ++ eqs n)%string = true).
+  { unfold data_ok. rewrite Hs, Hq. apply String.eqb_neq in Hne. rewrite Hne. reflexivity. }
+  rewrite (parse_bytes_base64_data kw Hkw sp _ Hsp Hd).
   rewrite (b64_decode_encode_eqs bs n Hbs). reflexivity.
 Qed.
+Corollary parse_base64_literal_nonempty : forall kw sp bs n, bytes1_kw kw -> sp = "base64"%string \/ sp = "b64"%string ->
+  is_bytes bs -> bs <> [] ->
+  parse_line (kw ++ " " ++ sp ++ " " ++ b64_encode_nopad bs ++ eqs n)%string
+  = Ok (Some (IOther (bytes_cls kw) [PStr ("0x" ++ hex_spec bs)%string])).
+Proof.
+  intros kw sp bs n Hkw Hsp Hbs Hne. apply parse_base64_literal; try assumption.
+  destruct bs as [|b bs]; [congruence|]. intros E. apply sapp_eq_nil in E. destruct E as [E _].
+  exact (encode_nopad_nonempty _ _ _ _ E).
+Qed.
+(* the canonical (padded) encoding of a non-empty byte string *)
+Corollary parse_base64_literal_padded : forall kw sp bs, bytes1_kw kw -> sp = "base64"%string \/ sp = "b64"%string ->
+  is_bytes bs -> bs <> [] ->
+  parse_line (kw ++ " " ++ sp ++ " " ++ b64_encode bs)%string
+  = Ok (Some (IOther (bytes_cls kw) [PStr ("0x" ++ hex_spec bs)%string])).
+Proof. intros kw sp bs Hkw Hsp Hbs Hne. unfold b64_encode. apply parse_base64_literal_nonempty; assumption. Qed.
 
 Theorem parse_base64_paren_literal : forall kw sp bs n, bytes1_kw kw -> sp = "base64("%string \/ sp = "b64("%string ->
-  is_bytes bs -> labeldef_ok (b64_encode_nopad bs ++ eqs n)%string = true ->
+  is_bytes bs ->
   parse_line (kw ++ " " ++ sp ++ (b64_encode_nopad bs ++ eqs n) ++ ")")%string
   = Ok (Some (IOther (bytes_cls kw) [PStr ("0x" ++ hex_spec bs)%string])).
 Proof.
-  intros kw sp bs n Hkw Hsp Hbs Hl.
-  rewrite (parse_bytes_base64_paren kw Hkw sp _ Hsp Hl).
+  intros kw sp bs n Hkw Hsp Hbs.
+  destruct (all_data_elim _ (all_data_b64_payload bs n)) as [Hs Hq].
+  rewrite (parse_bytes_base64_paren_data kw Hkw sp _ Hsp Hs Hq).
   rewrite (b64_decode_encode_eqs bs n Hbs). reflexivity.
 Qed.
+
+(* no payload: `byte base64` is rejected (there is no token to decode) *)
+Example parse_base64_empty :
+  b64_encode [] = ""%string /\
+  parse_line ("byte base64 " ++ b64_encode [])%string = Err "ParseError: incorrect byte format"%string /\
+  parse_line ("byte base64(" ++ b64_encode [] ++ ")")%string = Ok (Some (IOther "Byte" [PStr "0x"%string])).
+Proof. repeat split; vm_compute; reflexivity. Qed.
 
 (* the hex spelling of the same bytes gives the same instruction *)
 Theorem parse_hex_literal : forall kw bs, bytes1_kw kw -> is_bytes bs ->
@@ -638,17 +701,55 @@ Proof.
   rewrite (parse_base32_literal kw sp bs n Hkw Hsp Hbs Hne), (parse_hex_literal kw bs Hkw Hbs). reflexivity.
 Qed.
 
-(* REFUTED without the word_ok side condition: the canonical base64 of the two bytes ff ff is "//8=", a valid literal for
-   the AVM assembler (whose tokenizer does not start a comment inside base64 data); tealer's tokenizer
-   (_split_instruction_into_tokens) and the model cut the line at "//" and the literal is rejected. *)
-Theorem parse_base64_literal_refuted :
+Corollary parse_base64_same_as_hex : forall kw sp bs n, bytes1_kw kw -> sp = "base64"%string \/ sp = "b64"%string ->
+  is_bytes bs -> bs <> [] ->
+  parse_line (kw ++ " " ++ sp ++ " " ++ b64_encode_nopad bs ++ eqs n)%string
+  = parse_line (kw ++ " " ++ "0x" ++ hex_spec bs)%string.
+Proof.
+  intros kw sp bs n Hkw Hsp Hbs Hne.
+  rewrite (parse_base64_literal_nonempty kw sp bs n Hkw Hsp Hbs Hne), (parse_hex_literal kw bs Hkw Hbs). reflexivity.
+Qed.
+
+(* Finding D30, REPAIRED.  Before the repair of _split_instruction_into_tokens the canonical base64 of the two bytes
+   ff ff, "//8=" (a valid literal for the AVM assembler), was cut at "//" as a comment and the literal rejected
+   (this was the refutation theorem parse_base64_literal_refuted).  Now all three spellings give the same instruction. *)
+Theorem parse_base64_literal_slashes :
   exists bs, is_bytes bs /\ b64_encode bs = "//8="%string /\
-    parse_line ("byte base64 " ++ b64_encode bs)%string = Err "ParseError: incorrect byte format"%string /\
-    parse_line ("byte base64(" ++ b64_encode bs ++ ")")%string = Err "ParseError: expects exactly one argument"%string /\
+    parse_line ("byte base64 " ++ b64_encode bs)%string = Ok (Some (IOther "Byte" [PStr "0xffff"%string])) /\
+    parse_line ("byte base64(" ++ b64_encode bs ++ ")")%string = Ok (Some (IOther "Byte" [PStr "0xffff"%string])) /\
     parse_line ("byte 0x" ++ hex_spec bs)%string = Ok (Some (IOther "Byte" [PStr "0xffff"%string])).
 Proof.
   exists [255; 255]. split; [repeat constructor|]. repeat split; vm_compute; reflexivity.
 Qed.
+
+(* the lines of the repair's regression tests *)
+Local Open Scope string_scope.
+Example fixed_b64_1 : parse_line "byte base64 //8=" = Ok (Some (IOther "Byte" [PStr "0xffff"])).
+Proof. vm_compute. reflexivity. Qed.
+Example fixed_b64_2_tokens : tokenize "byte base64 //8= // c" = Ok ["byte"; "base64"; "//8="; "// c"].
+Proof. vm_compute. reflexivity. Qed.
+Example fixed_b64_2 : parse_line "byte base64 //8= // c" = Ok (Some (IOther "Byte" [PStr "0xffff"])).
+Proof. vm_compute. reflexivity. Qed.
+Example fixed_b64_3 : parse_line "byte base64(//8=)" = Ok (Some (IOther "Byte" [PStr "0xffff"])).
+Proof. vm_compute. reflexivity. Qed.
+Example fixed_b64_4 : parse_line "byte b64 AB// // c" = Ok (Some (IOther "Byte" [PStr "0x001fff"])).
+Proof. vm_compute. reflexivity. Qed.
+Example fixed_b64_5 : parse_line "bytecblock base64 //8= b64 AA//" = Ok (Some (IOther "Bytecblock" [PStrs ["0xffff"; "0x000fff"]])).
+Proof. vm_compute. reflexivity. Qed.
+(* after base64 the token "//" is data; then `missing` is not a byte literal *)
+Example fixed_b64_6 : parse_line "byte base64 // missing" = Err "ParseError: incorrect byte format".
+Proof. vm_compute. reflexivity. Qed.
+Example fixed_b64_7 : parse_line "byte base64" = Err "ParseError: incorrect byte format".
+Proof. vm_compute. reflexivity. Qed.
+(* unchanged: ordinary comments; base32 ("/" is not in its alphabet, "//" still starts a comment) *)
+Example fixed_b64_8 : parse_line "int 1 // c" = Ok (Some (IInt (IANum 1))).
+Proof. vm_compute. reflexivity. Qed.
+Example fixed_b64_9 : tokenize "byte base32 MY // c" = Ok ["byte"; "base32"; "MY"; "// c"].
+Proof. vm_compute. reflexivity. Qed.
+(* the test is on the token read so far: b64( inside a token that started otherwise is not base64 data *)
+Example fixed_b64_10 : tokenize "byte xb64(//8=)" = Ok ["byte"; "//8=)"].
+Proof. vm_compute. reflexivity. Qed.
+Local Close Scope string_scope.
 
 Print Assumptions decode_syms_bits.
 Print Assumptions hex_of_bytes_spec.
@@ -677,6 +778,10 @@ Print Assumptions parse_base64_literal.
 Print Assumptions parse_base64_paren_literal.
 Print Assumptions parse_hex_literal.
 Print Assumptions parse_base32_same_as_hex.
-Print Assumptions parse_base64_literal_refuted.
+Print Assumptions parse_base64_literal_nonempty.
+Print Assumptions parse_base64_literal_padded.
+Print Assumptions parse_base64_same_as_hex.
+Print Assumptions parse_base64_literal_slashes.
+Print Assumptions parse_base64_empty.
 Print Assumptions b64_encode_length.
 Print Assumptions b32_encode_length.
